@@ -214,9 +214,7 @@ def q_store_scalar(itp, arrq, idx, vq, node):
         # solve alpha, beta: vq = alpha*idx + beta with beta free of the symbols that idx varies with
         syms = [s for s in idx.t if s in Aff.BOUNDS]
         if not syms:
-            if idx.is_const():
-                return ('partial', {idx: vq})
-            return None
+            return ('partial', {idx: vq})       # one fixed slot (its index may involve the size symbols, e.g. NFFT-1)
         s = syms[0]
         alpha = vq.t.get(s, F(0)) / idx.t[s]
         beta = vq - idx.scale(alpha)
@@ -225,7 +223,7 @@ def q_store_scalar(itp, arrq, idx, vq, node):
             return None
         return lin(alpha, beta)
     if isinstance(arrq, tuple) and arrq[0] == 'partial':
-        if idx is not None and idx.is_const():
+        if idx is not None and not any(s in Aff.BOUNDS for s in idx.t):
             d = dict(arrq[1])
             d[idx] = vq
             return ('partial', d)
